@@ -173,6 +173,34 @@ def mutants_of(path, text):
             t = src.get(n.type)
             if t not in ("KeyError",):
                 add("except-narrow", n.type, "KeyError")
+    # memo-add: a memoising decorator put on a function that had none (the '@' line goes before the def /
+    # its first decorator; the import is added at the end of the module docstring / __future__ block)
+    if not path.endswith("caching.py"):
+        imp_at = 0
+        body = tree.body
+        k = 0
+        if body and isinstance(body[0], ast.Expr) and isinstance(body[0].value, ast.Constant) and isinstance(body[0].value.value, str):
+            k = 1
+        while k < len(body) and ((isinstance(body[k], ast.ImportFrom) and body[k].module == "__future__") or
+                                 (isinstance(body[k], ast.Expr) and isinstance(body[k].value, ast.Constant))):
+            k += 1
+        imp_line = body[k].lineno if k < len(body) else len(src.lines)
+        imp_off = src.off[imp_line - 1]
+        for n in ast.walk(tree):
+            if isinstance(n, ast.FunctionDef) and n.lineno < main_at and not n.name.startswith("__"):
+                if any(isinstance(x, (ast.Yield, ast.YieldFrom)) for x in ast.walk(n)):
+                    continue
+                decos = [src.get(d_) for d_ in n.decorator_list]
+                if any("cache" in d_ or "overload" in d_ or "property" in d_ or "staticmethod" in d_ or "classmethod" in d_ for d_ in decos):
+                    continue
+                first = n.decorator_list[0].lineno if n.decorator_list else n.lineno
+                line_off = src.off[first - 1]
+                indent = " " * (len(src.lines[first - 1]) - len(src.lines[first - 1].lstrip()))
+                for deco in ("lru_kw_cache", "hit_cache"):
+                    new_text = (src.bytes[:imp_off] + ("from spil.util.caching import %s as _vmemo\n" % deco).encode() +
+                                src.bytes[imp_off:line_off] + (indent + "@_vmemo\n").encode() + src.bytes[line_off:]).decode("utf-8")
+                    out.append({"file": path, "line": n.lineno, "op": "memo-add", "old": "def " + n.name, "new": "@%s def %s" % (deco, n.name),
+                                "a": 0, "b": len(src.bytes), "src": src.lines[n.lineno - 1].strip()[:160], "new_full": new_text})
     # de-duplicate
     seen, uniq = set(), []
     for m in out:
